@@ -80,16 +80,21 @@ class Ctx:
         self.unknown = []
         self.tags = []
         self._stubs, self._overrides, self._attr_overrides, self._globals = [], [], [], []
+        self.lenient = False
 
     # ---- inputs
-    def _get(self, name):
+    def _get(self, name, default=None):
         if name not in self.inputs:
+            if self.lenient:
+                v = default() if callable(default) else default
+                self.inputs[name] = v
+                return v
             raise KeyError(f"replay input {name!r} missing")
         return self.inputs[name]
 
     def int(self, name, lo, hi):
         if self.mode == 'conc':
-            return self._get(name)
+            return self._get(name, lo)
         v = z3.Int("in!" + name)
         self.eng.assume(z3.And(v >= lo, v <= hi))
         self.eng.set_bounds(v, lo, hi)
@@ -100,7 +105,7 @@ class Ctx:
     def bool(self, name):
         """symbolic flag, decided immediately (forks): returns a python bool"""
         if self.mode == 'conc':
-            return self._get(name)
+            return self._get(name, False)
         v = z3.Bool("in!" + name)
         r = self.eng.branch(v)
         self.decl[name] = SymBool(v)
@@ -108,7 +113,7 @@ class Ctx:
 
     def symbool(self, name):
         if self.mode == 'conc':
-            return self._get(name)
+            return self._get(name, False)
         r = SymBool(z3.Bool("in!" + name))
         self.decl[name] = r
         return r
@@ -122,7 +127,7 @@ class Ctx:
     def str(self, name, n, alphabet):
         """string of exactly n characters over alphabet (ranges or alpha() spec)"""
         if self.mode == 'conc':
-            return self._get(name)
+            return self._get(name, lambda: chr(alpha(alphabet)[0][0]) * n)
         dom = alpha(alphabet)
         items = []
         cons = []
@@ -140,13 +145,13 @@ class Ctx:
     def strlen(self, name, lo, hi, alphabet):
         """string of lo..hi characters (the length is decided by forking)"""
         if self.mode == 'conc':
-            return self._get(name)
+            return self._get(name, lambda: chr(alpha(alphabet)[0][0]) * lo)
         n = lo + self.eng.choose(hi - lo + 1, "len_" + name)
         return self.str(name, n, alphabet)
 
     def bytes(self, name, n, ranges=((0, 255),)):
         if self.mode == 'conc':
-            return self._get(name)
+            return self._get(name, lambda: bytes([ranges[0][0]]) * n)
         items = []
         cons = []
         for i in range(n):
@@ -162,7 +167,7 @@ class Ctx:
     def choice(self, name, options):
         """one of the options, decided immediately (forks): returns the concrete option"""
         if self.mode == 'conc':
-            return options[self._get(name)]
+            return options[self._get(name, 0)]
         v = z3.Int("in!" + name)
         self.eng.assume(z3.And(v >= 0, v < len(options)))
         self.decl[name] = SymInt(v)
@@ -174,7 +179,7 @@ class Ctx:
     def enum(self, name, options):
         """symbolic choice kept symbolic (SymEnum)"""
         if self.mode == 'conc':
-            return options[self._get(name)]
+            return options[self._get(name, 0)]
         v = z3.Int("in!" + name)
         self.eng.assume(z3.And(v >= 0, v < len(options)))
         self.decl[name] = SymInt(v)
@@ -182,7 +187,8 @@ class Ctx:
 
     def datetime(self, name, year_lo=1900, year_hi=2200, tz=None):
         if self.mode == 'conc':
-            return self._get(name)
+            import datetime as _d
+            return self._get(name, lambda: _d.datetime(year_lo, 1, 1, tzinfo=tz))
         from .models import dt
         r = dt.sym_datetime(name, year_lo, year_hi, tz)
         self.decl[name] = r
@@ -190,7 +196,8 @@ class Ctx:
 
     def time(self, name, tz=None):
         if self.mode == 'conc':
-            return self._get(name)
+            import datetime as _d
+            return self._get(name, lambda: _d.time(0, 0, 0, tzinfo=tz))
         from .models import dt
         r = dt.sym_time(name, tz)
         self.decl[name] = r
@@ -200,7 +207,7 @@ class Ctx:
         """fixed-offset tzinfo with a symbolic whole-minute offset; tzname: None | str | symbolic str"""
         from .models import dt
         if self.mode == 'conc':
-            return dt.FixedTz(self._get(name), tzname)
+            return dt.FixedTz(self._get(name, max(lo, min(0, hi))), tzname)
         r = dt.sym_tz(name, lo, hi, tzname)
         self.decl[name] = SymInt(r.off_min)
         return r
@@ -208,7 +215,8 @@ class Ctx:
     def decimal(self, name, max_coef, exp):
         """finite Decimal with symbolic sign and coefficient 0..max_coef and the given (concrete) exponent"""
         if self.mode == 'conc':
-            return self._get(name)
+            import decimal as _dec
+            return self._get(name, lambda: _dec.Decimal((0, (0,), exp)))
         from .models import dec
         r = dec.sym_decimal(name, max_coef, exp)
         self.decl[name] = r
@@ -531,11 +539,13 @@ def dec_inputs(d):
     return {k: de(v) for k, v in d.items()}
 
 
-def run_native(fn, params, inputs, active):
-    """Run harness natively on concrete inputs.  Returns dict(outcome, checks, obs, known)."""
+def run_native(fn, params, inputs, active, lenient=False):
+    """Run harness natively on concrete inputs.  Returns dict(outcome, checks, obs, known).
+    lenient: inputs the symbolic run had not declared yet get a default value (concolic completion of a cut path)."""
     import warnings
     import contextlib, io
-    ctx = Ctx('conc', inputs=inputs, active=active)
+    ctx = Ctx('conc', inputs=dict(inputs), active=active)
+    ctx.lenient = lenient
     outcome = "ok"
     detail = None
     with warnings.catch_warnings(record=True) as wl, contextlib.redirect_stdout(io.StringIO()):
@@ -550,7 +560,7 @@ def run_native(fn, params, inputs, active):
         finally:
             ctx.cleanup()
     return dict(outcome=outcome, detail=detail, checks=[(l, bool(v)) for l, v in ctx.checks],
-                obs=[(k, plain(v)) for k, v in ctx.obs], known=list(ctx.known_hits))
+                obs=[(k, plain(v)) for k, v in ctx.obs], known=list(ctx.known_hits), inputs=ctx.inputs)
 
 
 def run_instance(inst):
@@ -598,6 +608,20 @@ def run_instance(inst):
             if kind == "unsupported":
                 res["inconclusive"].append("unsupported: " + out[1][:160])
                 res["exhaustive"] = False
+                # concolic completion: the solver's witness for the part of the path that *was* encoded is run on the
+                # real code (inputs not reached yet get defaults); an obligation failing there is a real violation
+                try:
+                    m = model if model is not None else eng.model_for_pc(pc)
+                    if m is not None and not ctx.known_hits:
+                        nat = run_native(fn, params, model_inputs(ctx.decl, m), active, lenient=True)
+                        bad = [l for l, ok in nat["checks"] if not ok]
+                        if nat["outcome"].startswith("exc:"):
+                            bad.append("uncaught:" + nat["outcome"][4:])
+                        if bad and not nat["known"] and len(res["violations"]) < 3:
+                            res["violations"].append(dict(label=bad[0], inputs=enc_inputs(nat["inputs"]), native=nat["outcome"],
+                                                          detail=(nat["detail"] or "") + " [concrete completion of a path the models could not finish]"))
+                except (Unsupported, KeyError):
+                    pass
                 continue
             okey = "ok" if kind == "ok" else "exc:" + type(out[1]).__name__
             res["outcomes"][okey] = res["outcomes"].get(okey, 0) + 1
